@@ -378,8 +378,9 @@ class AsyncHTTP2Connection(AsyncConnectionInterface):
                             h2.events.StreamReset,
                         ),
                     ):
-                        if event.stream_id in self._events:
-                            self._events[event.stream_id].append(event)
+                        stream_events = self._events.get(event.stream_id)
+                        if stream_events is not None:
+                            stream_events.append(event)
 
                     elif isinstance(event, h2.events.ConnectionTerminated):
                         self._connection_terminated = event
